@@ -233,7 +233,13 @@ def clsStep (caseE pyout : Sexp) : String :=
       else match pyout with
         | .list [.atom "rt", tb, _, bb, _] => .list [.atom "rt", tb, tb, bb, bb]
         | _ => .atom "rt-expected"
-    let ok : Bool := match pyout with
+    -- the table obligation of this very class (so that a violation names the class)
+    let tableOk : Bool := match nameId name with
+      | some i => match Gen.rows.find? (·.id == i) with
+        | some r => rowOk Gen.rows Gen.faithfulIds Gen.loudIds r
+        | none => false
+      | none => false
+    let ok : Bool := tableOk && match pyout with
       | .list [.atom "no-recipe"] => noRecipeAllowed.contains name
       | .list [.atom "save-error"] => true       -- loud failure at save time is accepted by the property
       | .list [.atom "rt", tb, ta, bb, ba] => tb == ta && bb == ba
